@@ -94,6 +94,9 @@ pub enum Op {
     // ---- cross-thread ordering for curated programs
     Set(u8),
     Wait(u8),
+    /// every observer through the thread's current handles, at once (used by
+    /// the sequential explorer after every step)
+    ObsAll,
     // ---- C17: kanal's own lock driven directly (no channel involved)
     /// lock(); critical section; unlock()
     LockL,
